@@ -4,6 +4,7 @@ import (
 	"fmt"
 	"go/types"
 	"math"
+	"reflect"
 	"regexp"
 	"sort"
 	"strconv"
@@ -462,6 +463,8 @@ func (m *mach) builtinModel(fn *ssa.Function, args []mv) (mv, bool) {
 		if _, isNil := args[0].(mNilT); isNil {
 			return mNil, true
 		}
+	case name == "reflect.ValueOf" || strings.HasPrefix(name, "reflect.Value."):
+		return m.reflectModel(fn.Name(), args)
 	case name == "errors.New" || name == "fmt.Errorf":
 		return mIface{t: types.NewPointer(types.Universe.Lookup("error").Type()), v: &mSym{name: "error(" + mRender(args[0]) + ")", nonNil: true}}, true
 	case name == "fmt.Sprintf" || name == "fmt.Sprint":
@@ -834,4 +837,117 @@ func mAppendBytes(dst mv, add []byte) mv {
 	out := make([]mv, len(base), nc)
 	copy(out, base)
 	return mSlice{append(out, vals...)}
+}
+
+// ---- reflect: the read-only view of a value of the model -----------------------------------------------
+// reflect.ValueOf(x) is a symbol that remembers the interface value it describes (dynamic type and payload);
+// Kind / IsValid / IsNil / Interface / Type / Len read it. Anything else on a reflect.Value stays opaque.
+
+func reflectKind(t types.Type) (int64, bool) {
+	switch u := t.Underlying().(type) {
+	case *types.Basic:
+		if k, ok := map[types.BasicKind]reflect.Kind{types.Bool: reflect.Bool, types.Int: reflect.Int, types.Int8: reflect.Int8, types.Int16: reflect.Int16, types.Int32: reflect.Int32, types.Int64: reflect.Int64,
+			types.Uint: reflect.Uint, types.Uint8: reflect.Uint8, types.Uint16: reflect.Uint16, types.Uint32: reflect.Uint32, types.Uint64: reflect.Uint64, types.Uintptr: reflect.Uintptr,
+			types.Float32: reflect.Float32, types.Float64: reflect.Float64, types.Complex64: reflect.Complex64, types.Complex128: reflect.Complex128, types.String: reflect.String,
+			types.UnsafePointer: reflect.UnsafePointer}[u.Kind()]; ok {
+			return int64(k), true
+		}
+	case *types.Array:
+		return int64(reflect.Array), true
+	case *types.Chan:
+		return int64(reflect.Chan), true
+	case *types.Signature:
+		return int64(reflect.Func), true
+	case *types.Interface:
+		return int64(reflect.Interface), true
+	case *types.Map:
+		return int64(reflect.Map), true
+	case *types.Pointer:
+		return int64(reflect.Pointer), true
+	case *types.Slice:
+		return int64(reflect.Slice), true
+	case *types.Struct:
+		return int64(reflect.Struct), true
+	}
+	return 0, false
+}
+
+func (m *mach) reflectModel(method string, args []mv) (mv, bool) {
+	if method == "ValueOf" {
+		switch a := args[0].(type) {
+		case mIface:
+			return &mSym{name: "reflect.ValueOf(" + mRender(a.v) + ")", nonNil: true, rt: a.t, rv: a.v}, true
+		case mNilT:
+			return &mSym{name: "reflect.ValueOf(nil)", nonNil: true, rv: mNil}, true
+		}
+		return nil, false
+	}
+	v, ok := args[0].(*mSym)
+	if !ok || v.rv == nil {
+		return nil, false
+	}
+	kind := int64(reflect.Invalid)
+	if v.rt != nil {
+		if kind, ok = reflectKind(v.rt); !ok {
+			return nil, false
+		}
+	}
+	switch method {
+	case "Kind":
+		return kind, true
+	case "IsValid":
+		return v.rt != nil, true
+	case "Interface":
+		if v.rt != nil {
+			return mIface{t: v.rt, v: v.rv}, true
+		}
+	case "Type":
+		if v.rt != nil {
+			return &mSym{name: "reflect.TypeOf(" + v.rt.String() + ")", nonNil: true, rt: v.rt}, true
+		}
+	case "Len":
+		switch x := v.rv.(type) {
+		case string:
+			return int64(len(x)), true
+		case mSlice:
+			return int64(len(x.arr)), true
+		case mArray:
+			return int64(len(x)), true
+		case *mMap:
+			if x == nil {
+				return int64(0), true
+			}
+			return int64(len(x.keys)), true
+		case mNilT:
+			if reflect.Kind(kind) == reflect.Slice || reflect.Kind(kind) == reflect.Map {
+				return int64(0), true
+			}
+		}
+	case "IsNil":
+		switch reflect.Kind(kind) {
+		case reflect.Chan, reflect.Func, reflect.Interface, reflect.Map, reflect.Pointer, reflect.Slice, reflect.UnsafePointer:
+			switch x := v.rv.(type) {
+			case mNilT:
+				return true, true
+			case *mv:
+				return x == nil, true
+			case mSlice:
+				return x.arr == nil, true
+			case *mMap:
+				return x == nil, true
+			case *mClosure:
+				return x == nil, true
+			case *ssa.Function:
+				return x == nil, true
+			case *mSym:
+				if x.nonNil {
+					return false, true
+				}
+			}
+		default:
+			// as the reflect package does
+			m.throw(m.sym("reflect: call of reflect.Value.IsNil on "+reflect.Kind(kind).String()+" Value", nil), "reflect: call of reflect.Value.IsNil on %s Value", reflect.Kind(kind))
+		}
+	}
+	return nil, false
 }
